@@ -95,24 +95,25 @@ type mapKeyRec struct {
 }
 
 type l2Registry struct {
-	mutable  map[string]bool
-	shapes   map[string][]*Shape
-	shapeIdx map[string]map[string]int
-	mapKeys  map[string][]mapKeyRec
-	mapKeyIx map[string]map[string]int
-	objType  map[string]types.Type
-	locKind  map[string]string          // cell | map | mutex | chan
-	prot     map[string]map[string]bool // location -> mutexes held at every access seen so far (nil: none seen)
-	writers  map[string]map[int]bool    // location -> threads that write it
-	noFuse   bool
-	changed  bool
-	changes  []string
+	mutable    map[string]bool
+	shapes     map[string][]*Shape
+	shapeIdx   map[string]map[string]int
+	mapKeys    map[string][]mapKeyRec
+	mapKeyIx   map[string]map[string]int
+	objType    map[string]types.Type
+	locKind    map[string]string          // cell | map | mutex | chan
+	prot       map[string]map[string]bool // location -> mutexes held at every access seen so far (nil: none seen)
+	writers    map[string]map[int]bool    // location -> threads that write it
+	pubAtSpawn map[string]bool            // objects captured by a goroutine and written afterwards: shared from the go statement on
+	noFuse     bool
+	changed    bool
+	changes    []string
 }
 
 func newRegistry() *l2Registry {
 	return &l2Registry{mutable: map[string]bool{}, shapes: map[string][]*Shape{}, shapeIdx: map[string]map[string]int{},
 		mapKeys: map[string][]mapKeyRec{}, mapKeyIx: map[string]map[string]int{}, objType: map[string]types.Type{}, locKind: map[string]string{},
-		prot: map[string]map[string]bool{}, writers: map[string]map[int]bool{}}
+		prot: map[string]map[string]bool{}, writers: map[string]map[int]bool{}, pubAtSpawn: map[string]bool{}}
 }
 
 func (r *l2Registry) note(what string) {
@@ -1093,8 +1094,23 @@ func (e *Engine) evGo(fr *frame, g goroutine) {
 	child := &threadRec{id: 100*parent.id + e.ev.children, name: "go@" + g.pos, parent: parent.id, spawnKey: fmt.Sprintf("%x", hashString(parent.key()))}
 	child.lastKey = fmt.Sprintf("T%d[%s]unspawned", child.id, child.spawnKey)
 	parent.nSpawned++
+	// everything the goroutine can reach through its closure is "captured": a later write to it by
+	// either side makes it shared state from this go statement on (decided by the fixpoint)
+	e.beginAtomic()
+	seen := map[interface{}]bool{}
+	if g.fv != nil {
+		for _, b := range g.fv.Bind {
+			e.capture(b, seen, 0)
+		}
+	}
+	for _, a := range g.args {
+		e.capture(a, seen, 0)
+	}
+	if g.recv != nil {
+		e.capture(g.recv, seen, 0)
+	}
 	e.emitOp(microOp{Kind: "spawn", Child: child.id, Label: child.lastKey, Pos: g.pos})
-	e.endBlock(false)
+	e.endAtomic()
 	e.ev.threads = append(e.ev.threads, child)
 	e.ev.pendingChildren = append(e.ev.pendingChildren, pendingChild{child, g})
 }
@@ -1247,4 +1263,107 @@ func (e *Engine) endAtomic() {
 	if e.ev.atomic == 0 {
 		e.closeBlock()
 	}
+}
+
+// capture walks the values reachable from a goroutine's closure.
+func (e *Engine) capture(v Value, seen map[interface{}]bool, depth int) {
+	if depth > 12 {
+		return
+	}
+	switch x := v.(type) {
+	case PtrVal:
+		if x.C != nil {
+			e.captureCell(x.C, x.C.Origin, seen, depth)
+		}
+	case SliceVal:
+		if x.Arr != nil && !seen[x.Arr] {
+			seen[x.Arr] = true
+			if x.Arr.Name == "" && x.Arr.Origin != "" && e.ev.reg.pubAtSpawn[x.Arr.Origin] {
+				// publish the array now
+				x.Arr.Name = x.Arr.Origin
+				e.ev.reg.objType[x.Arr.Name] = x.Arr.Type
+				e.ev.arrByName()[x.Arr.Name] = x.Arr
+				for i, c := range x.Arr.E {
+					e.publishCellTree(c, fmt.Sprintf("%s[%d]", x.Arr.Name, i), nil)
+				}
+			}
+			for i, c := range x.Arr.E {
+				name := ""
+				if x.Arr.Origin != "" {
+					name = fmt.Sprintf("%s[%d]", x.Arr.Origin, i)
+				}
+				e.captureCell(c, name, seen, depth)
+				if c.Shared == nil && c.ID > e.ev.setupMaxCell {
+					c.CapRoot = x.Arr.Origin
+				}
+			}
+		}
+	case IfaceVal:
+		e.capture(x.V, seen, depth+1)
+	case *FuncVal:
+		if x != nil && !seen[x] {
+			seen[x] = true
+			for _, b := range x.Bind {
+				e.capture(b, seen, depth+1)
+			}
+		}
+	case *StructVal:
+		for _, f := range x.F {
+			e.capture(f.V, seen, depth+1)
+		}
+	case *ArrayVal:
+		for _, f := range x.E {
+			e.capture(f.V, seen, depth+1)
+		}
+	case TupleVal:
+		for _, f := range x {
+			e.capture(f, seen, depth+1)
+		}
+	}
+}
+
+func (e *Engine) captureCell(c *Cell, root string, seen map[interface{}]bool, depth int) {
+	if seen[c] {
+		return
+	}
+	seen[c] = true
+	if c.Shared == nil && c.ID > e.ev.setupMaxCell {
+		if c.Origin != "" && e.ev.reg.pubAtSpawn[c.Origin] {
+			e.ev.reg.objType[c.Origin] = c.Type
+			e.publishCellTree(c, c.Origin, c.Type)
+		} else {
+			e.markCaptured(c, root)
+		}
+	}
+	e.capture(c.V, seen, depth+1)
+}
+
+func (e *Engine) markCaptured(c *Cell, root string) {
+	c.Captured = true
+	if c.CapRoot == "" {
+		c.CapRoot = root
+	}
+	switch v := c.V.(type) {
+	case *StructVal:
+		for _, f := range v.F {
+			e.markCaptured(f, root)
+		}
+	case *ArrayVal:
+		for _, f := range v.E {
+			e.markCaptured(f, root)
+		}
+	}
+}
+
+// capturedWrite: a private variable that a goroutine captured is written after the go statement.
+func (e *Engine) capturedWrite(c *Cell) {
+	root := c.CapRoot
+	if root == "" {
+		panic(engineErr("event mode: write to a variable captured by a goroutine that has no allocation-site name (not modelled)"))
+	}
+	if !e.ev.reg.pubAtSpawn[root] {
+		e.ev.reg.pubAtSpawn[root] = true
+		e.ev.reg.note("captured object written after go: " + root)
+	}
+	panic(restartExploration{"captured variable " + root + " is written after the go statement"})
 }
